@@ -130,7 +130,7 @@ theorem R_step (kk data : List UInt32) (j : UInt32) (i : Nat) (hi : i < 16)
   have : i = 0 ∨ i = 1 ∨ i = 2 ∨ i = 3 ∨ i = 4 ∨ i = 5 ∨ i = 6 ∨ i = 7 ∨ i = 8 ∨ i = 9 ∨ i = 10 ∨ i = 11 ∨
       i = 12 ∨ i = 13 ∨ i = 14 ∨ i = 15 := by omega
   rcases this with rfl | rfl | rfl | rfl | rfl | rfl | rfl | rfl | rfl | rfl | rfl | rfl | rfl | rfl | rfl | rfl <;>
-    simp [regsAt, Spec.round, S0_eq, S1_eq, Ch_eq, Maj_eq] <;> (try (and_intros <;> ac_rfl)) <;> ac_rfl
+    simp [wr, regsAt, Spec.round, S0_eq, S1_eq, Ch_eq, Maj_eq] <;> (try (and_intros <;> ac_rfl)) <;> ac_rfl
 
 
 theorem getD_set_eq {α : Type} (l : List α) (n : Nat) (v d : α) (h : n < l.length) : (l.set n v).getD n d = v := by
@@ -166,7 +166,7 @@ theorem blk_spec (data : List UInt32) (hd : data.length = 16) (r0 : Spec.Regs) (
     have : blk data (UInt32.ofNat 0) (UInt32.ofNat i) s = blk0 data (UInt32.ofNat i) s := by
       unfold blk; simp
     rw [this]
-    simp only [blk0, idxI i hi, Nat.zero_add, List.length_set]
+    simp only [blk0, idxI i hi, Nat.zero_add, wr_eq_set s.W i _ (by omega), List.length_set]
     refine ⟨(schedule_lt16 data hd i hi).symm, hW, ?_⟩
     intro u hu1 hu2
     by_cases hu : u = i
@@ -180,7 +180,7 @@ theorem blk_spec (data : List UInt32) (hd : data.length = 16) (r0 : Spec.Regs) (
     rw [this]
     simp only [blk2]
     rw [idxW2 i hi, idxW7 i hi, idxW15 i hi, idxW0 i hi]
-    rw [s0_eq, s1_eq, List.length_set]
+    rw [wr_eq_set s.W i _ (by omega), s0_eq, s1_eq, List.length_set]
     have e2 : (i + 14) % 16 = (j + i - 2) % 16 := by omega
     have e7 : (i + 9) % 16 = (j + i - 7) % 16 := by omega
     have e15 : (i + 1) % 16 = (j + i - 15) % 16 := by omega
